@@ -216,16 +216,51 @@ theorem val_flt_other_kinds (t : Str) (buflen : Nat) (pre : Str) :
     deliverFlt t .cpldup buflen pre = .ok t ∧ deliverFlt t .strp buflen pre = .ok t ∧
     deliverFlt t .strpcat buflen pre = .ok (pre ++ t) := ⟨rfl, rfl, rfl⟩
 
-/-- the text itself: val_flt_to_str formats with CONVFMT, or OFMT when HAWK_RTX_VALTOSTR_PRINT is given, and a float specification
-in it goes to libc as `libcSpecOf` says (`float_spec_passthrough`); there is no `*` argument to take -/
-theorem val_flt_to_str_spec (tmpLen : Nat) (print : Bool) (convfmt ofmt : Str) (fl : Str) (w : WSpec) (p : PSpec)
-    (wf : SpecWF fl w p) (c : Char) (hc : c = 'e' ∨ c = 'E' ∨ c = 'f' ∨ c = 'g' ∨ c = 'G') (a : Arg)
-    (hw : w.args = []) (hp : p.args = [])
-    (hfmt : (if print then ofmt else convfmt) = '%' :: specText fl w p c) :
-    valFltPieces tmpLen print convfmt ofmt a = .ok [.libc (libcSpecOf fl w p c) a] := by
-  unfold valFltPieces valFltFormat
-  rw [hfmt]
-  exact (convfmt_same_rule tmpLen fl w p wf c hc a hw hp).1
+/-- the text itself (val_flt_to_str since 65b4a33, the POSIX rule): a value that is an exact integer within the range of hawk_int_t
+(`iv = some n`) gets the `%d` text of that integer, whatever CONVFMT and OFMT are; every other value is formatted with CONVFMT, or OFMT
+when HAWK_RTX_VALTOSTR_PRINT is given, and a float specification in it goes to libc as `libcSpecOf` says (`float_spec_passthrough`;
+there is no `*` argument to take) -/
+theorem val_flt_to_str_spec (tmpLen : Nat) (print : Bool) (convfmt ofmt : Str) (a : Arg) :
+    (∀ n : Int, valFltToPieces tmpLen print convfmt ofmt (some n) a = .ok [.text (CSpec.render (cspec [] .none .none 'd') n)]) ∧
+    (∀ (fl : Str) (w : WSpec) (p : PSpec) (_wf : SpecWF fl w p) (c : Char) (_hc : c = 'e' ∨ c = 'E' ∨ c = 'f' ∨ c = 'g' ∨ c = 'G')
+       (_hw : w.args = []) (_hp : p.args = []) (_hfmt : (if print then ofmt else convfmt) = '%' :: specText fl w p c),
+       valFltToPieces tmpLen print convfmt ofmt none a = .ok [.libc (libcSpecOf fl w p c) a]) := by
+  constructor
+  · intro n
+    simp [valFltToPieces, intCells_eq, intText_eq_render]
+  · intro fl w p wf c hc hw hp hfmt
+    unfold valFltToPieces valFltPieces valFltFormat
+    rw [hfmt]
+    exact (convfmt_same_rule tmpLen fl w p wf c hc a hw hp).1
+
+/-- delivery of a float under that rule: the `%d` text of the integer when integral and in range, otherwise the CONVFMT/OFMT text `t` -
+unchanged for the duplicating and string-buffer kinds, appended by `strpcat` -/
+theorem val_flt_to_str_rule (t : Str) (buflen : Nat) (pre : Str) :
+    (∀ n : Int,
+      valFltToStr (some n) t .cpldup buflen pre = .ok (CSpec.render (cspec [] .none .none 'd') n) ∧
+      valFltToStr (some n) t .strp buflen pre = .ok (CSpec.render (cspec [] .none .none 'd') n) ∧
+      valFltToStr (some n) t .strpcat buflen pre = .ok (pre ++ CSpec.render (cspec [] .none .none 'd') n)) ∧
+    (valFltToStr none t .cpldup buflen pre = .ok t ∧ valFltToStr none t .strp buflen pre = .ok t ∧
+      valFltToStr none t .strpcat buflen pre = .ok (pre ++ t)) := by
+  constructor
+  · intro n; exact val_int_to_str_eq_C n buflen pre
+  · exact ⟨rfl, rfl, rfl⟩
+
+/-- the text a float is converted to: the `%d` text of the integer, or `t` -/
+def fltText (iv : Option Int) (t : Str) : Str :=
+  match iv with
+  | some n => CSpec.render (cspec [] .none .none 'd') n
+  | none => t
+
+/-- … and into a caller's buffer (kinds cpl and cplcpy), on both branches: the whole text when it fits with its terminator,
+otherwise failure with the size needed - never a shortened text -/
+theorem val_flt_to_str_fixed_buffer (iv : Option Int) (t : Str) (buflen : Nat) (pre : Str) :
+    valFltToStr iv t .cplcpy buflen pre =
+      (if buflen ≤ (fltText iv t).length then .einval (some ((fltText iv t).length + 1)) else .ok (fltText iv t)) ∧
+    valFltToStr iv t .cpl buflen pre = valFltToStr iv t .cplcpy buflen pre := by
+  cases iv with
+  | none => exact ⟨rfl, rfl⟩
+  | some n => exact val_int_fixed_buffer_whole_or_fail n buflen pre
 
 /-- strings, characters and nil through the same output kinds (str_to_str): whole or not at all into a caller's buffer -/
 theorem str_fixed_buffer_whole_or_fail (s : Str) (buflen : Nat) (pre : Str) :
@@ -271,10 +306,21 @@ example : valIntToStr (-42) .cplcpy 3 [] = .einval (some 4) := by
 example : valIntToStr (-9223372036854775808) .strpcat 0 "k=".toList = .ok "k=-9223372036854775808".toList := by
   rw [(val_int_to_str_eq_C _ 0 _).2.2]; decide
 example : deliverFlt "0.50".toList .cplcpy 4 [] = .einval (some 5) ∧ deliverFlt "0.50".toList .cplcpy 5 [] = .ok "0.50".toList := by decide
-example : valFltPieces 4096 false "%.3g".toList "%.6g".toList (.flt 3 []) = .ok [.libc "%.3Lg".toList (.flt 3 [])] := by
-  have := val_flt_to_str_spec 4096 false "%.3g".toList "%.6g".toList [] .none (.lit ['3']) ⟨by decide, trivial, by simp [PSpec.wf]⟩ 'g' (by simp) (.flt 3 []) rfl rfl rfl
+example : valFltToPieces 4096 false "%.3g".toList "%.6g".toList none (.flt 3 []) = .ok [.libc "%.3Lg".toList (.flt 3 [])] := by
+  have := (val_flt_to_str_spec 4096 false "%.3g".toList "%.6g".toList (.flt 3 [])).2 [] .none (.lit ['3']) ⟨by decide, trivial, by simp [PSpec.wf]⟩ 'g' (by simp) rfl rfl rfl
   rw [this]
   have : libcSpecOf [] .none (.lit ['3']) 'g' = "%.3Lg".toList := by simp only [libcSpecOf, decimal_eq]; decide
   rw [this]
+/-- 1e6 with CONVFMT="%.2e" is "1000000", -0.0 is "0" -/
+example : valFltToPieces 4096 false "%.2e".toList "%.6g".toList (some 1000000) (.flt 1000000 []) = .ok [.text "1000000".toList] := by
+  rw [(val_flt_to_str_spec 4096 false "%.2e".toList "%.6g".toList (.flt 1000000 [])).1]
+  have : CSpec.render (cspec [] .none .none 'd') 1000000 = "1000000".toList := by decide
+  rw [this]
+example : valFltToStr (some 0) "-0".toList .cpldup 0 [] = .ok "0".toList := by
+  rw [((val_flt_to_str_rule "-0".toList 0 []).1 0).1]; decide
+example : valFltToStr (some 16777216) [] .cplcpy 8 [] = .einval (some 9) ∧ valFltToStr none "0.50".toList .cplcpy 5 [] = .ok "0.50".toList := by
+  constructor
+  · rw [(val_flt_to_str_fixed_buffer (some 16777216) [] 8 []).1]; decide
+  · decide
 
 end Hawk.Fmt.C12
